@@ -26,7 +26,8 @@ RULE = ec.RULE + ("; plus C06 cases (harness/drivers/engine_cases_c06.py): 10 st
 
 
 def cases(rng, tier):
-    return ec.gen_cases(rng, tier) + engine_cases_c06.gen(rng, tier)
+    extra = engine_cases_c06.gen(rng, tier)
+    return ec.gen_cases(rng, tier) + extra + ec.stagest_variants(extra, 2 if tier == "quick" else 1)
 
 
 # ----------------------------------------------------------------------------- the ledger
